@@ -88,7 +88,7 @@ func kind(id int, name string, mk func() mangos.ProtocolBase) *l1kit.Kind {
 		case w < 17:
 			return append([]byte{0, 0, 1, 0}, pl...)
 		case w < 18:
-			return pl[:r.Intn(4)] // too short
+			return pl[:minInt(len(pl), r.Intn(4))] // too short
 		default:
 			return append([]byte{byte(1 + r.Intn(255)), 0, 0, 0}, pl...)
 		}
@@ -185,4 +185,11 @@ func main() {
 	}
 	addScripts(kinds)
 	l1run.Main(l1kit.Gen(kinds))
+}
+
+func minInt(a, b int) int {
+	if a < b {
+		return a
+	}
+	return b
 }
